@@ -51,6 +51,8 @@ class Ev:
                kw.get('quant', self.quant))
         e.depth = self.depth
         e.nounfold = getattr(self, 'nounfold', False)
+        e.qdepth = getattr(self, 'qdepth', 0)
+        e.qinfo = getattr(self, 'qinfo', None)
         return e
 
     # -- helpers
@@ -295,6 +297,9 @@ class Ev:
             return self.map_get(x, kv)
         i = self.int(e[2])
         if k == 'slice':
+            qi = getattr(self, 'qinfo', None)
+            if qi is not None and qi['off'] is None and i.eq(qi['var']):
+                qi['off'] = x.lv[('o',)]
             return self.load(self.st.elem_loc(x, i))
         if k == 'array':
             return V.index_array_val(types, x, i)
@@ -321,7 +326,7 @@ class Ev:
         kv = self.coerce(kv, d['key'])
         kt = V.key_term(types, kv, None if self.quant else self.st)
         key, reg = self.st.region('map', mt, ('has',), ('A', 'B'))
-        return z3.Select(z3.Select(reg, m.term), kt)
+        return z3.And(m.term != 0, z3.Select(z3.Select(reg, m.term), kt))
 
     def map_len(self, m):
         mt = self.types.under(m.t)
@@ -330,6 +335,8 @@ class Ev:
 
     def coerce(self, v, t):
         """give an untyped constant / mathint the Go type t"""
+        if isinstance(v, Val) and v.t == '$key':
+            return v
         if isinstance(v, NilV):
             return V.zero_val(self.types, t)
         if isinstance(v, Val) and v.t == MATHINT and self.types.kind(t) == 'int':
@@ -491,6 +498,8 @@ class Ev:
                 av = self.coerce(self.ev(a), f['type'])
                 v = V.set_field_val(types, v, f['name'], av)
             return v
+        if types.kind(t.t) == 'array' and not e[2]:
+            return V.zero_val(types, t.t)
         raise SpecError('literal of %s unsupported' % t.t)
 
     # -- calls
@@ -589,6 +598,8 @@ class Ev:
         sub = Ev(self.cx, self.st, env, sf.pkg, self.old, sf.imports, None, self.quant)
         sub.depth = self.depth + 1
         sub.nounfold = getattr(self, 'nounfold', False)
+        sub.qdepth = getattr(self, 'qdepth', 0)
+        sub.qinfo = getattr(self, 'qinfo', None)
         return sub.ev(sf.body)
 
     def rtype_key(self, sf):
@@ -645,11 +656,23 @@ class Ev:
             if univ:
                 return boolv(z3.And(parts) if parts else z3.BoolVal(True))
             return boolv(z3.Or(parts) if parts else z3.BoolVal(False))
-        k = z3.Int(fresh_name(name))
+        qd = getattr(self, 'qdepth', 0)
+        k = z3.Int('%s@%d' % (name, qd))
         env = dict(self.env)
         env[name] = mathint(k)
-        body = self.sub(env=env, quant=True).bool(args[3])
+        subev = self.sub(env=env, quant=True)
+        subev.qdepth = qd + 1
+        subev.qinfo = {'var': k, 'off': None}
+        body = subev.bool(args[3])
         rng = z3.And(k >= lo, k < hi)
+        off = subev.qinfo['off']
+        if off is not None and ops.const_val(off) != 0:
+            # quantify over the absolute index of the primary slice so that element reads are
+            # select(row, a) with a bound variable (a usable trigger) instead of select(row, off+i)
+            a = z3.Int('%s@%d#abs' % (name, qd))
+            body = z3.simplify(z3.substitute(body, (k, a - off)), som=True)
+            rng = z3.And(a >= off + lo, a < off + hi)
+            k = a
         if univ:
             return boolv(z3.ForAll([k], z3.Implies(rng, body)))
         return boolv(z3.Exists([k], z3.And(rng, body)))
@@ -707,13 +730,66 @@ class Ev:
     def fn_div(self, args):
         return mathint(self.int(args[0]) / self.int(args[1]))
 
+    def fn_forallkeys(self, args):
+        """forallkeys(m, k, body): body for every possible key k of map m (unbounded)"""
+        m = self.deref_auto(self.ev(args[0]))
+        if self.types.kind(m.t) != 'map' or args[1][0] != 'id':
+            raise SpecError('forallkeys(map, k, body)')
+        name = args[1][1]
+        qd = getattr(self, 'qdepth', 0)
+        k = z3.Int('%s@%d' % (name, qd))
+        env = dict(self.env)
+        env[name] = Val('$key', {(): k})
+        subev = self.sub(env=env, quant=True)
+        subev.qdepth = qd + 1
+        return boolv(z3.ForAll([k], subev.bool(args[2])))
+
+    def fn_same(self, args):
+        """same(a, b): identical representation (for slices: same backing array, bounds)"""
+        a = self.ev(args[0])
+        b = self.ev(args[1])
+        if a.lv is None or b.lv is None:
+            raise SpecError('same() on interior pointers')
+        return boolv(z3.And([a.lv[p] == b.lv[p] for p in a.lv]))
+
+    def fn_unchanged(self, args):
+        """unchanged(x): the content designated by x (map, slice with its elements, or location)
+        is the same as in the old state"""
+        if self.old is None:
+            raise SpecError('unchanged() outside a postcondition')
+        cur = self.deref_auto(self.ev(args[0]))
+        oldev = self.sub(st=self.old.with_sink(self.st))
+        old = oldev.deref_auto(oldev.ev(args[0]))
+        types = self.types
+        k = types.kind(cur.t)
+        if k == 'map':
+            mt = types.under(cur.t)
+            d = types.desc(cur.t)
+            cs = [cur.term == old.term]
+            specs = [(('has',), ('A', 'B')), (('len',), 'I')] + [(('v',) + p, ('A', s)) for (p, s, role) in types.leaves(d['elem'])]
+            for path, sd in specs:
+                kc, rc = self.st.region('map', mt, path, sd)
+                ko, ro = self.old.region('map', mt, path, sd)
+                cs.append(z3.Select(rc, cur.term) == z3.Select(ro, old.term))
+            return boolv(z3.And(cs))
+        if k == 'slice':
+            cs = [cur.lv[p] == old.lv[p] for p in cur.lv]
+            et = types.elem(cur.t)
+            j = z3.Int('u@%d' % getattr(self, 'qdepth', 0))
+            a = self.st.load(self.st.elem_loc(cur, j), facts=False)
+            b = self.old.load(self.old.elem_loc(old, j), facts=False)
+            eq = z3.And([a.lv[p] == b.lv[p] for p in a.lv]) if a.lv else z3.BoolVal(True)
+            cs.append(z3.ForAll([j], z3.Implies(z3.And(j >= 0, j < cur.lv[('l',)]), eq)))
+            return boolv(z3.And(cs))
+        return boolv(z3.And([cur.lv[p] == old.lv[p] for p in cur.lv]))
+
     def fn_fresh(self, args):
         """fresh(p): p was allocated during the call (not reachable before)"""
         x = self.ev(args[0])
-        base = self.old if self.old is not None else self.st
+        base = self.old if self.old is not None else None
         k = self.types.kind(x.t)
         ref = x.lv[('b',)] if k == 'slice' else (x.lv[('p',)] if k == 'iface' else x.term)
-        return boolv(ref > base.frontier)
+        return boolv(ref > (base.frontier if base is not None else self.st.alloc0))
 
     def fn_seq(self, args):
         return self.to_seq(self.ev(args[0]))
